@@ -94,7 +94,7 @@ func newEngine(groups []*singleflight.Group, strayAns interface{}) *engine {
 	// generous bound for "the step never became visible"; once that has happened twice in a
 	// run the code under test is evidently broken and the remaining schedules use a short bound
 	to := 5 * time.Second
-	if timeouts >= 2 {
+	if timeoutCount() >= 2 {
 		to = 300 * time.Millisecond
 	}
 	e := &engine{starts: make(chan *exec, 256), strayAns: strayAns,
